@@ -15,7 +15,8 @@ import time
 from collections import Counter, defaultdict
 
 V = "/verif"
-B = V + "/build"
+B = os.environ.get("VERIF_BUILD", V + "/build")
+OUT = os.environ.get("VERIF_OUT", V)
 RUNNER = B + "/harness/runner"
 TMP = B + "/tmp"
 sys.path.insert(0, V + "/scripts")
@@ -40,7 +41,7 @@ def build():
 
 def run_batch(prop, tier, seed_start, count, jobs, out, extra=(), wall_cap=None):
     cmd = [RUNNER, "--prop", prop, "--tier", tier, "--seed-start", str(seed_start), "--count", str(count),
-           "--jobs", str(jobs), "--out", out]
+           "--jobs", str(jobs), "--out", out, "--tmpdir", TMP]
     if wall_cap:
         cmd += ["--wall-cap", str(wall_cap)]
     cmd += list(extra)
@@ -98,7 +99,8 @@ def run_replay(prop, tier, rp, record=False, wall_cap=30):
     else:
         txt = base + ".txt"
         write_replay_txt(txt, rp)
-        cmd = [RUNNER, "--prop", prop, "--tier", tier, "--replay-txt", txt, "--out", out, "--wall-cap", str(wall_cap)]
+        cmd = [RUNNER, "--prop", prop, "--tier", tier, "--replay-txt", txt, "--out", out, "--wall-cap", str(wall_cap),
+               "--tmpdir", TMP]
         if record:
             cmd.append("--record")
         subprocess.run(cmd, check=False)
@@ -237,8 +239,8 @@ def main():
     P = PROPS[prop]
     t_start = time.time()
     os.makedirs(TMP, exist_ok=True)
-    os.makedirs(V + "/evidence", exist_ok=True)
-    os.makedirs(V + "/replays", exist_ok=True)
+    os.makedirs(OUT + "/evidence", exist_ok=True)
+    os.makedirs(OUT + "/replays", exist_ok=True)
     build()
     seed0 = int(os.environ.get("VERIF_SEED", P.get("seed", 1000003)))
     jobs = int(os.environ.get("VERIF_JOBS", "16"))
@@ -249,17 +251,25 @@ def main():
     wall_cap = P.get("wall_cap", 30)
 
     results = []
-    chunk = max(jobs * 8, min(count, P.get("chunk", 2000)))
+    chunk = max(jobs * 8, min(count, P.get("chunk", 1024 if tier == "quick" else 4096)))
     done = 0
     t_runs = time.time()
+    known_pre = load_known()
     while done < count:
         n = min(chunk, count - done)
         out = "%s/batch.%d.jsonl" % (TMP, os.getpid())
-        results += run_batch(prop, tier, seed0 + done, n, jobs, out, (), wall_cap)
+        part = run_batch(prop, tier, seed0 + done, n, jobs, out, (), wall_cap)
+        results += part
         if os.path.exists(out):
             os.unlink(out)
         done += n
         if time.time() - t_runs > time_budget:
+            break
+        # stop early once a (not known) violation has been seen: the rest of the budget is better
+        # spent on minimising it
+        bad = [r for r in part if vclass(prop, r) not in (None, "infra")
+               and not match_known(known_pre, prop, r.get("sub", ""), vclass(prop, r))]
+        if bad:
             break
     run_wall = time.time() - t_runs
     # known-finding sub-workloads: small dedicated seed budget each (never part of the main mix)
@@ -287,7 +297,8 @@ def main():
     for s in sample:
         o = "%s.%d" % (out, s)
         procs.append((s, o, subprocess.Popen([RUNNER, "--prop", prop, "--tier", tier, "--seed-start", str(s),
-                                              "--count", "1", "--jobs", "1", "--out", o, "--wall-cap", str(wall_cap)])))
+                                              "--count", "1", "--jobs", "1", "--out", o, "--wall-cap", str(wall_cap),
+                                              "--tmpdir", TMP])))
         if len(procs) >= 5:
             for (s2, o2, p2) in procs:
                 p2.wait()
@@ -362,7 +373,7 @@ def main():
         best["expect"] = {"outcome": a.get("outcome"), "class": a.get("class"), "hash": a.get("hash"),
                           "steps": a.get("steps")}
         best["count_in_batch"] = len(rs)
-        path = "%s/replays/%s-%s-%d.json" % (V, prop, cls.replace("/", "_"), r["seed"])
+        path = "%s/replays/%s-%s-%d.json" % (OUT, prop, cls.replace("/", "_"), r["seed"])
         with open(path, "w") as f:
             json.dump(best, f, indent=1)
         violations.append((cls, path, best))
@@ -460,7 +471,7 @@ def main():
         "wall_s": round(wall, 2),
         "violations": len(violations),
     }
-    with open("%s/evidence/%s.json" % (V, prop), "w") as f:
+    with open("%s/evidence/%s.json" % (OUT, prop), "w") as f:
         json.dump(ev, f, indent=1)
 
     log("%s %s: %d runs in %.1fs (%.0f runs/h), %d distinct non-trivial interleavings, faults %s" %
